@@ -52,6 +52,7 @@ type Contract struct {
 	Results  []string
 	Assumed  bool
 	Lemma    bool
+	FieldFunc bool // contract of a function-typed struct field (pure, assumed)
 	Props    []string
 	Requires []*Clause
 	Ensures  []*Clause
@@ -103,7 +104,7 @@ type ContractSet struct {
 	Assumes   []string // textual list of assumed contracts (for evidence)
 }
 
-var keywordRe = regexp.MustCompile(`^(package|func|assume|lemma|ghost|pred|spec|requires|ensures|modifies|panics_if|let|loop|invariant|free_invariant|decreases|exit_assert|props|encoder|nopanic|may_panic|return_assert|cover|bounded|assert|opt)\b`)
+var keywordRe = regexp.MustCompile(`^(package|func|fieldfunc|assume|lemma|ghost|pred|spec|requires|ensures|modifies|panics_if|let|loop|invariant|free_invariant|decreases|exit_assert|props|encoder|nopanic|may_panic|return_assert|cover|bounded|assert|opt)\b`)
 
 // readContractFile extracts //@ lines and parses them.
 func (cs *ContractSet) readContractFile(path, pkgPath string) error {
@@ -160,7 +161,7 @@ func (cs *ContractSet) readContractFile(path, pkgPath string) error {
 			continue
 		}
 		switch kw {
-		case "func", "assume", "lemma":
+		case "func", "assume", "lemma", "fieldfunc":
 			hdr := rest
 			assumed := kw == "assume"
 			if assumed {
@@ -181,6 +182,10 @@ func (cs *ContractSet) readContractFile(path, pkgPath string) error {
 			c.PkgPath = pkgPath
 			c.Assumed = assumed
 			c.Lemma = kw == "lemma"
+			c.FieldFunc = kw == "fieldfunc"
+			if c.FieldFunc {
+				c.Assumed = true
+			}
 			c.Props = props
 			c.File, c.Line, c.Header = path, l.n, hdr
 			c.Loops = map[int]*LoopContract{}
